@@ -42,6 +42,55 @@ def date_to_binary(y, m, d, h=0):
     return ((y + 5000) * 365 + ordinal0) * 24 + (h - 1 if h else 0)
 
 
+# [a_c10] >>> exact Python mirrors used by the C10 value-kind streams (props/C10_kinds.py)
+def date_from_binary(s):
+    """ExpandedRawDate::from_binary: (year, month, day, hour0) or None; i32 arithmetic truncates towards zero"""
+    def tdiv(a, b):
+        q = abs(a) // b
+        return q if a >= 0 else -q
+    hour = s - tdiv(s, 24) * 24
+    s = tdiv(s, 24)
+    days = s - tdiv(s, 365) * 365
+    if hour < 0 or days < 0:
+        return None
+    y = tdiv(s, 365) - 5000
+    if not (-32768 <= y <= 32767):
+        return None
+    m = 1
+    while days >= DPM[m]:
+        days -= DPM[m]
+        m += 1
+    return (y, m, days + 1, hour)
+
+
+def text_f64(txt):
+    """Scalar::to_f64 on [-]digits[.digits] with a mantissa below 2^53 and at most 22 decimals (else None = refused or
+    outside what this mirror covers): (i as f64) / 10^k, sign by multiplication"""
+    m = re.match(r"^(-?)([0-9]+)(?:\.([0-9]*))?$", txt)
+    if not m:
+        return None
+    neg, ip, fp = m.group(1) == "-", m.group(2), m.group(3)
+    if fp is None:
+        n = int(ip)
+        if n > 9007199254740991:
+            return None
+        return float(-n if neg else n)
+    i = int(ip + fp)
+    if i >= 2 ** 53 or len(fp) > 22:
+        return None
+    d = float(i) / float(10 ** len(fp))
+    return -d if neg else d
+
+
+def f32_bits_of_f64(x):
+    """`x as f32` (round to nearest even, overflow to infinity), as bits"""
+    try:
+        return struct.unpack("<I", struct.pack("<f", x))[0]
+    except OverflowError:
+        return 0x7f800000 if x > 0 else 0xff800000
+# [a_c10] <<<
+
+
 def f32_bits_of_fraction(fr):
     """correctly rounded (nearest even) binary32 of an exact rational; ints below 2^53 and the
     n/8 floats used here are exact in double, so one cast does it"""
@@ -310,6 +359,8 @@ def scalar_text(v):
     if t == "str":
         return v["v"]
     if t == "float":
+        if "txt" in v:                 # [a_c10] explicit numeral (3 / 5 decimals streams of props/C10_kinds.py)
+            return v["txt"]
         fr = Fraction(v["n8"], 8)
         neg = fr < 0
         a = abs(fr)
@@ -323,9 +374,10 @@ def scalar_text(v):
             s = str(ip)
         return ("-" if neg else "") + s
     if t == "date":
+        hs = (".%d" % v["h"]) if v.get("h") else ""          # [a_c10] DateHour values: hour 1..24, never zero-padded
         if v.get("pad"):
-            return "%d.%02d.%02d" % (v["y"], v["m"], v["d"])
-        return "%d.%d.%d" % (v["y"], v["m"], v["d"])
+            return "%d.%02d.%02d" % (v["y"], v["m"], v["d"]) + hs
+        return "%d.%d.%d" % (v["y"], v["m"], v["d"]) + hs
     raise RuntimeError(t)
 
 
@@ -371,7 +423,8 @@ def render_scalar(v, enc, force_quote=False):
         q = q or v.get("q", False)
     b = enc_bytes(s, enc)
     if q:
-        return b'"' + b.replace(b'"', b'\\"') + b'"'
+        # [a_c10] a backslash is written escaped too (no older generator produces one); both decoders drop every backslash
+        return b'"' + b.replace(b"\\", b"\\\\").replace(b'"', b'\\"') + b'"'
     return b
 
 
@@ -472,6 +525,8 @@ def flavor_enc(flavor):
 
 
 def float_payload(v, flavor):
+    if "pay" in v:                     # [a_c10] explicit payloads {flavor: bytes} for the token v["b"]
+        return v["pay"][flavor]
     fr = Fraction(v["n8"], 8)
     if v["b"] == "F32":
         if flavor == "eu4":
@@ -507,8 +562,8 @@ def render_bin_value(v, flavor):
         return tok(0x0d if v["b"] == "F32" else 0x167) + float_payload(v, flavor)
     if t == "date":
         if v["b"] == "I32":
-            return tok(0x0c) + struct.pack("<i", date_to_binary(v["y"], v["m"], v["d"]))
-        return bstr(scalar_text(v).encode(), True)
+            return tok(0x0c) + struct.pack("<i", date_to_binary(v["y"], v["m"], v["d"], v.get("h", 0)))
+        return bstr(scalar_text(v).encode(), v.get("bq", True))
     if t == "str":
         if v["b"] == "ID":
             return tok(v["id"])
@@ -718,7 +773,7 @@ def expected_scalar_text(sh, v):
     raw = scalar_text(v)
     t = v["t"]
     if sh == "str" or sh == "any":
-        return show_str(raw)
+        return show_str(raw.replace("\\", "") if t == "str" else raw)      # [a_c10] Encoding::decode drops every backslash
     if sh == "bool":
         if raw == "yes":
             return "(bool 1)"
@@ -739,6 +794,11 @@ def expected_scalar_text(sh, v):
             if abs(n) > 9007199254740991:
                 raise SpecErr("de")
             fr = Fraction(n)
+        elif t == "float" and "txt" in v:          # [a_c10] explicit numeral
+            x = text_f64(v["txt"])
+            if x is None:
+                raise SpecErr("de")
+            return "(f64 %016x)" % f64_bits(x) if sh == "f64" else "(f32 %08x)" % f32_bits_of_f64(x)
         elif t == "float":
             fr = Fraction(v["n8"], 8)
         else:
@@ -749,10 +809,8 @@ def expected_scalar_text(sh, v):
                 bits = f64_bits(0.0)
             return "(f64 %016x)" % bits
         return "(f32 %08x)" % f32_bits_of_fraction(fr)
-    if sh == "date":
-        if t == "date":
-            return "(date %d %d %d 0)" % (v["y"], v["m"], v["d"])
-        raise SpecErr("de")
+    if sh in ("date", "dh"):
+        return expected_date_str(sh, v, raw)
     if isinstance(sh, tuple) and sh[0] == "enum":
         if raw in sh[1]:
             return "(enum %s)" % hx(raw)
@@ -760,11 +818,33 @@ def expected_scalar_text(sh, v):
     raise SpecErr("de")
 
 
+def expected_date_str(sh, v, raw):
+    """[a_c10] Date::parse / DateHour::parse (the visit_str half of the date visitors) on the characters `raw` of a date or
+    integer value: Y.M.D is a Date, Y.M.D.H (H in 1..24) a DateHour, never the other way round; a numeral is the binary
+    form (i32; Date: 5..12 characters and hour 0; DateHour: the 0-based hour must be non-zero and is NOT shifted)"""
+    t = v["t"]
+    if t == "date":
+        if not (-32768 <= v["y"] <= 32767):
+            raise SpecErr("de")
+        if sh == "date" and not v.get("h") and 5 <= len(raw) <= 12:
+            return "(date %d %d %d 0)" % (v["y"], v["m"], v["d"])
+        if sh == "dh" and v.get("h"):
+            return "(date %d %d %d %d)" % (v["y"], v["m"], v["d"], v["h"])
+        raise SpecErr("de")
+    if t == "int" and re.match(r"^-?[0-9]+$", raw) and -2 ** 31 <= v["v"] < 2 ** 31:
+        r = date_from_binary(v["v"])
+        if r is not None and sh == "date" and r[3] == 0 and 5 <= len(raw) <= 12:
+            return "(date %d %d %d 0)" % r[:3]
+        if r is not None and sh == "dh" and r[3] != 0:
+            return "(date %d %d %d %d)" % r
+    raise SpecErr("de")
+
+
 def expected_scalar_bin(sh, v, M):
     t = v["t"]
     isint_sh = isinstance(sh, tuple) and sh[0] in ("u", "i")
     if t == "int" or (t == "date" and v["b"] == "I32"):
-        n = v["v"] if t == "int" else date_to_binary(v["y"], v["m"], v["d"])
+        n = v["v"] if t == "int" else date_to_binary(v["y"], v["m"], v["d"], v.get("h", 0))
         b = v["b"]
         if isint_sh:
             if in_range(sh, n):
@@ -776,10 +856,13 @@ def expected_scalar_bin(sh, v, M):
             return "(f32 %08x)" % f32_bits_of_fraction(Fraction(n))
         if sh == "any":
             return "(%s %d)" % ("i" if b in ("I32", "I64") else "u", n)
-        if sh == "date" and b == "I32":
-            if t == "date":
-                return "(date %d %d %d 0)" % (v["y"], v["m"], v["d"])
-            raise SpecErr("de")        # generators do not put a date hint on plain integers
+        if sh in ("date", "dh") and b == "I32":
+            # [a_c10] visit_i32 of the date visitors: Date::from_binary drops the hour, DateHour::from_binary shifts it to
+            # 1..24 (for the dates of the older generators -- year >= -5000, no hour -- this is the date itself)
+            r = date_from_binary(n) if -2 ** 31 <= n < 2 ** 31 else None
+            if r is None:
+                raise SpecErr("de")
+            return "(date %d %d %d %d)" % (r[0], r[1], r[2], 0 if sh == "date" else r[3] + 1)
         raise SpecErr("de")
     if t == "bool":
         if sh in ("bool", "any"):
@@ -811,10 +894,10 @@ def expected_scalar_bin(sh, v, M):
     else:
         s = scalar_text(v)
     if sh in ("str", "any"):
-        return show_str(s)
-    if sh == "date":
+        return show_str(s.replace("\\", "") if not (t == "str" and v["b"] == "ID") else s)      # [a_c10] (a resolved name is not decoded)
+    if sh in ("date", "dh"):
         if t == "date":
-            return "(date %d %d %d 0)" % (v["y"], v["m"], v["d"])
+            return expected_date_str(sh, v, s)
         raise SpecErr("de")
     if isinstance(sh, tuple) and sh[0] == "enum":
         if s in sh[1]:
